@@ -159,6 +159,11 @@ func extractC06() *lean {
 		l.def("parseConds", "List String", "[]", nil)
 	}
 	l.def("parseSteps", "List String", leanStrList(steps), steps)
+	var fconds []string
+	if fd := funcDecl(pf, "isJWSSerialization"); fd != nil {
+		fconds = c06Conds(fd)
+	}
+	l.def("framingConds", "List String", leanStrList(fconds), fconds)
 	for _, fn := range []string{"parseLamportClock", "parseSigningTime", "parseVersion", "parsePrevious", "parsePAL", "parseSignatureParams", "parsePayload", "parseContentType", "parseSigningAlgorithm"} {
 		var conds []string
 		if fd := funcDecl(pf, fn); fd != nil {
